@@ -302,13 +302,27 @@ def run(ctx):
                             ans)
                     elif any(w[0].lower() == h[0].lower() for w in want):
                         bad("auto-header-duplicated", dict(det, added=h), ans)
-        # ---- all status codes of the registry through the tuple form
+        # ---- all status codes of the registry through the tuple form; the
+        # body the handler gave is delivered with every one of them
         for st in sorted(responses):
-            cur["v"] = lambda st=st: ("b", "text/plain", None, st)
-            ans = ask()
-            ctx.case(("status", st), True, None)
-            if ans.code != st:
-                bad("tuple-status", {"status_code": st}, ans)
+            for body in ("b", b"bytes", [b"l1", b"l2"]):
+                cur["v"] = lambda st=st, body=body: (body, "text/plain",
+                                                     None, st)
+                ans = ask()
+                ctx.case(("status", st, repr(body)), True, None)
+                want = body.encode() if isinstance(body, str) else \
+                    b"".join(body) if isinstance(body, list) else body
+                if ans.code != st:
+                    bad("tuple-status", {"status_code": st}, ans)
+                elif st in (204, 304) and not ans.body and \
+                        (ans.header("Content-Length") or "0") != "0":
+                    bad("tuple-body-announced-but-not-sent",
+                        {"status_code": st, "value": repr(body)}, ans)
+                elif ans.body != want and st not in (204, 304):
+                    # 204/304: C06 asks for no body bytes there (known
+                    # finding body-on-204); C05 is not asserted for them
+                    bad("tuple-body", {"status_code": st,
+                                       "value": repr(body)}, ans)
     finally:
         import shutil
         shutil.rmtree(tmp, ignore_errors=True)
